@@ -319,6 +319,16 @@ def fragment_records(header, frag, encoded=True, lib='LIB'):
             cig2 = [(5, 5), (0, ln2)]
     if r2_present:
         recs.append(mk(False, r2_start, fr2e, not frag['rev'], r2_mapped, r1_mapped, r1_start, frag['rev'], seq2, cig2))
+    dc = frag.get('discordant')    # read 2 aligned to ANOTHER contig (translocation, chimeric template): both mates present, never in one fetch
+    if dc and d is None and len(recs) == 2:
+        R1, R2 = recs
+        R2.reference_id = dc['ctg']
+        R2.reference_start = dc['pos']
+        R1.next_reference_id = dc['ctg']
+        R1.next_reference_start = dc['pos']
+        for s in (R1, R2):
+            s.flag &= ~0x2
+            s.template_length = 0
     extra = frag.get('extra')      # secondary / supplementary copy of R1 (dropped by the mate-pairing library; outside the claim)
     if extra and r1_present and r1_mapped:
         s = mk(True, max(0, fr1s + extra.get('shift', 7)), None, frag['rev'], True, r2_mapped, r2_start, not frag['rev'], seq1, cig1)
